@@ -1,8 +1,12 @@
 (* props/C14.v — property theorems for C14 (WAL record encoding round-trips).
    Nothing but statements; proofs are in proof/RecordProofs.v (and lib/Bytes.v, lib/Varint.v).
-   The hypotheses [*_ok] are the ranges of the Go types only (uint64 refs and float bit
-   patterns, int64 timestamps, slice/string lengths below 2^63) — no bound on batch sizes,
-   deltas or payloads. *)
+   The hypotheses [*_ok] are the ranges of the Go types only (uint64 refs / counts / float bit
+   patterns, int64 timestamps and bucket deltas, int32 schema and span offsets, uint32 span
+   lengths, slice/string lengths below 2^63) — no bound on batch sizes, deltas or payloads —
+   plus, for histograms, that the schema is not in 9..52 (those are sent through
+   ReduceResolution by the decoder, which is not modelled).
+   Every decoder result below is [Ok _]: in particular never EFuel (the loop fuel suffices),
+   never EPanic.  Floats are bit patterns, so equality is bitwise. *)
 From Coq Require Import List NArith ZArith.
 From Verif Require Import lib.Int64 lib.Bytes lib.Varint model.Record proof.RecordProofs.
 Import ListNotations.
@@ -12,7 +16,100 @@ Open Scope N_scope.
 Theorem C14_series_roundtrip : forall l, Forall series_ok l -> dec_series (enc_series l) = Ok l.
 Proof. exact series_roundtrip. Qed.
 
-(* float samples, V1 (no start timestamps on the wire: ST decodes as 0) *)
+(* float samples, V1 record (no start timestamps on the wire: ST decodes as 0) *)
 Theorem C14_samples_v1_roundtrip : forall l, Forall sample_ok l ->
   dec_samples (enc_samples false l) = Ok (map drop_st l).
 Proof. exact samples_v1_roundtrip. Qed.
+
+(* float samples, V2 record with noST/sameST/explicitST markers: everything comes back *)
+Theorem C14_samples_v2_roundtrip : forall l, Forall sample_ok l ->
+  dec_samples (enc_samples true l) = Ok l.
+Proof. exact samples_v2_roundtrip. Qed.
+
+(* tombstones: one decoded stone per (ref, interval), in order; a stone without intervals vanishes *)
+Theorem C14_tombstones_roundtrip : forall l, Forall stone_ok l ->
+  dec_tombstones (enc_tombstones l) = Ok (canon_stones l).
+Proof. exact tombstones_roundtrip. Qed.
+
+Theorem C14_exemplars_roundtrip : forall l, Forall exemplar_ok l ->
+  dec_exemplars (enc_exemplars l) = Ok l.
+Proof. exact exemplars_roundtrip. Qed.
+
+Theorem C14_metadata_roundtrip : forall l, Forall metadata_ok l ->
+  dec_metadata (enc_metadata l) = Ok l.
+Proof. exact metadata_roundtrip. Qed.
+
+Theorem C14_mmap_markers_roundtrip : forall l, Forall mmap_ok l -> dec_mmap (enc_mmap l) = Ok l.
+Proof. exact mmap_roundtrip. Qed.
+
+(* Encoder{}.HistogramSamples (V1): the batch is split, in order, into the custom-bucket samples
+   (returned to the caller, untouched) and the others (in the record) — nothing lost, nothing
+   duplicated; the record decodes to the others; it is EMPTY when there are no others.
+   canon_rs: ST is not on the V1 wire (0), samples with an unknown schema are dropped by the
+   decoder, CustomValues survive only with the custom schema (see C14_canon_identity). *)
+Theorem C14_histograms_v1_split : forall l, Forall rhist_ok l ->
+  let r := enc_histogram_samples false l in
+  let expo := filter (fun x => negb (hcustom x)) l in
+  snd r = filter hcustom l /\
+  (l = [] \/ expo <> [] -> dec_histogram_samples (fst r) = Ok (canon_rs canon_hist h_schema false expo)) /\
+  (l <> [] -> expo = [] -> fst r = []).
+Proof. exact histograms_v1_split. Qed.
+
+Theorem C14_histograms_custom_v1_roundtrip : forall l, Forall rhist_ok l ->
+  dec_histogram_samples (enc_cb_histogram_samples false l) = Ok (canon_rs canon_hist h_schema false l).
+Proof. exact histograms_cb_v1_roundtrip. Qed.
+
+(* V2: one record type for exponential and custom-bucket histograms, no leftovers, ST preserved *)
+Theorem C14_histograms_v2_roundtrip : forall l, Forall rhist_ok l ->
+  enc_histogram_samples true l = (enc_cb_histogram_samples true l, []) /\
+  dec_histogram_samples (enc_cb_histogram_samples true l) = Ok (canon_rs canon_hist h_schema true l).
+Proof. exact histograms_v2_roundtrip. Qed.
+
+Theorem C14_float_histograms_v1_split : forall l, Forall rfhist_ok l ->
+  let r := enc_float_histogram_samples false l in
+  let expo := filter (fun x => negb (fcustom x)) l in
+  snd r = filter fcustom l /\
+  (l = [] \/ expo <> [] -> dec_float_histogram_samples (fst r) = Ok (canon_rs canon_fhist fh_schema false expo)) /\
+  (l <> [] -> expo = [] -> fst r = []).
+Proof. exact float_histograms_v1_split. Qed.
+
+Theorem C14_float_histograms_custom_v1_roundtrip : forall l, Forall rfhist_ok l ->
+  dec_float_histogram_samples (enc_cb_float_histogram_samples false l) = Ok (canon_rs canon_fhist fh_schema false l).
+Proof. exact float_histograms_cb_v1_roundtrip. Qed.
+
+Theorem C14_float_histograms_v2_roundtrip : forall l, Forall rfhist_ok l ->
+  enc_float_histogram_samples true l = (enc_cb_float_histogram_samples true l, []) /\
+  dec_float_histogram_samples (enc_cb_float_histogram_samples true l) = Ok (canon_rs canon_fhist fh_schema true l).
+Proof. exact float_histograms_v2_roundtrip. Qed.
+
+(* on valid histograms (known schema; custom values only with the custom schema) the V2 canon
+   is the identity: decode (encode l) = l *)
+Theorem C14_canon_identity :
+  (forall l, Forall hist_valid l -> canon_rs canon_hist h_schema true l = l) /\
+  (forall l, Forall fhist_valid l -> canon_rs canon_fhist fh_schema true l = l).
+Proof. exact (conj canon_rs_hist_id canon_rs_fhist_id). Qed.
+
+(* the primitive codecs of tsdb/encoding the records are built from *)
+Theorem C14_varint_roundtrip :
+  (forall x rest, u64_ok x -> d_uvarint64 (put_uvarint x ++ rest) = Ok (x, rest)) /\
+  (forall x rest, int64 x -> d_varint64 (put_varint x ++ rest) = Ok (x, rest)) /\
+  (forall x rest, u64_ok x -> d_be64 (put_be64 x ++ rest) = Ok (x, rest)).
+Proof. exact (conj d_uvarint64_put (conj d_varint64_put d_be64_put)). Qed.
+
+(* non-vacuity: extreme refs / timestamps / NaN payloads and all three ST markers satisfy the
+   hypotheses, and the round trip computes *)
+Example C14_nonvacuous_samples :
+  Forall sample_ok ex_samples /\ dec_samples (enc_samples true ex_samples) = Ok ex_samples /\
+  dec_samples (enc_samples false ex_samples) = Ok (map drop_st ex_samples).
+Proof. split; [exact ex_samples_ok | split; vm_compute; reflexivity]. Qed.
+
+(* a mixed batch: exponential, custom-bucket and unknown-schema histogram *)
+Example C14_nonvacuous_hists :
+  Forall rhist_ok ex_hists /\
+  snd (enc_histogram_samples false ex_hists) = [nth 1 ex_hists (mkRS 0 0%Z 0%Z (mkHist 0 0 0 0 0 0 [] [] [] [] []))] /\
+  length (filter (fun x => negb (hcustom x)) ex_hists) = 2%nat /\
+  (exists x, dec_histogram_samples (fst (enc_histogram_samples false ex_hists)) = Ok [x]).
+Proof.
+  split; [exact ex_hists_ok|]. split; [reflexivity|]. split; [reflexivity|].
+  eexists. vm_compute. reflexivity.
+Qed.
